@@ -1,5 +1,5 @@
 From Coq Require Import Extraction ExtrOcamlBasic ExtrOcamlString.
-From Oras Require Import Base.Prelude Generated.GC04 Model.CopySpec Model.CopyTop Model.CopyOpt Model.CopyCancel Model.CopyHold.
+From Oras Require Import Base.Prelude Generated.GC04 Model.CopySpec Model.CopyTop Model.CopyOpt Model.CopyCancel Model.CopyHold Model.CopyPermit.
 Extraction Language OCaml.
 (* effective concurrency: the limiter size translated from copyGraph's source (guard, default,
    argument of semaphore.NewWeighted); equal to eff_K defaultConcurrency by C04_limiter_size *)
@@ -7,8 +7,10 @@ Definition eff_K_gen : Z -> nat := fun opt => Z.to_nat (copyGraph_limiter_size o
 (* C04's runner replays every recorded trace on the permit-holding overlay (Model/CopyHold.v): the
    driver ml/c01_main.ml calls [cstep_opt] (cancellation layer over the nil-callback elaboration),
    which here is the overlay's version of it (a waiting leaf holds its permit; holders < K at every
-   acquisition) -- accepted by it implies accepted by CopyCancel / CopySpec *)
-Definition step_opt := step_opt_h.
-Definition cstep_opt := cstep_opt_h.
+   acquisition) -- accepted by it implies accepted by CopyCancel / CopySpec.
+   In CopyGraph runs whose limiter the harness owns, the trace also carries the semaphore's free-permit
+   readings (token TB.<f>, decoded by Model/CopyPermit.decode): each must satisfy holders + f <= K. *)
+Definition step_opt := step_opt_p.
+Definition cstep_opt := cstep_opt_p.
 Extraction "xc04.ml" step step_opt cstep_opt init copy_result present_nodes inflight_src inflight_dst active eff_K_gen
   eff_ref prologue select_manifest N.of_nat N.to_nat holders.
